@@ -1,38 +1,169 @@
-"""C15: regenerate coq/Generated/SyncFacts.v from the repository's source.
+"""C15: regenerate coq/Generated/SyncFacts.v from the repository.
 
-Facts (harness/cmd/extract-c15, go/ast):
+Facts:
   * disconnect_records_parent_hash: in wallet/chainntfns.go disconnectBlock, the
     block stamp passed to w.Manager.SetSyncedTo carries the parent's hash that
-    was fetched with w.Manager.BlockHash(ns, <stamp>.Height) (the assignment
-    `<x>.Hash = *hash` targets the stamp itself and not another variable);
+    was fetched with w.Manager.BlockHash(ns, b.Height - 1);
   * max_reorg_depth: waddrmgr.MaxReorgDepth (and staleHeight(h) = h - MaxReorgDepth).
 
 The model Sync/Sync.v takes both as parameters; the theorems of
-Properties/C15.v take `disconnect_records_parent_hash = true` and
-`0 < max_reorg_depth` as premises discharged by eq_refl.
+Properties/C15.v take `disconnect_records_parent_hash = true` (and
+`0 < max_reorg_depth`) as premises discharged by eq_refl.
 
-A shape that is not recognised makes the extractor fail, which is turned into
-an exception here (the check then reports a broken obligation)."""
-import json, os, subprocess
+Each fact is determined on one of two paths:
+
+  source  (primary) harness/cmd/extract-c15 reads the source (go/ast).  It
+          understands the incremental construction of the stamp
+          (`bs := BlockStamp{Height: b.Height-1}` ... `<x>.Hash = *hash`) and
+          the equivalent single composite literal built after the fetch
+          (`BlockStamp{Height: <b.Height-1>, Hash: *<fetched>, ...}`), with the
+          height given directly or through a local defined once; anything else
+          is refused, not guessed.
+
+  probe   (fallback, only for a fact whose shape was refused)
+          harness/cmd/probe-c15 is built against `repo` (harness module, tag
+          verif) and run:
+          - disconnect_records_parent_hash: the witness of C15_refuted_at_pinned
+            / corpus/C15/s1_*: new wallet, connect 1..n with the wallet's own
+            connectBlock, disconnect n with its own disconnectBlock, read back
+            SyncedTo().Hash and BlockHash(n-1).  disconnectBlock hands one stamp
+            to SetSyncedTo, which stores its Hash field as the synced-to hash and
+            as the hash of height n-1; so both read-backs ARE that field, and the
+            simulated chain knows the parent's true hash.  Six instances (n = 1
+            with the genesis block as parent, 3, 5; with and without a birthday
+            block, i.e. with and without the predecessor check of PutSyncedTo).
+            true  iff every instance is accepted (synced-to height n-1) and both
+                  hashes are the parent's;
+            false iff every instance is accepted and both hashes are all-zero
+                  (exactly what the model's `false` branch stores);
+            anything else (mixed, other hashes, disconnect not accepted, error)
+            is inconsistent with both instances of the model: the probe fails.
+          - max_reorg_depth: the exported constant, validated against the
+            pruning rule the model attaches to it (SetSyncedTo for heights
+            1..M+2: exactly the entries 1 and 2 disappear).
+
+The Generated file says which path produced the facts
+(`(* facts source: source | probe ... *)`); lib/c15.py copies that into the
+evidence.  Only if BOTH paths fail for a fact does main() raise (the message
+carries both reasons), so that the check reports a broken obligation instead
+of silently keeping an old fact."""
+import hashlib, json, os, re, shutil, subprocess
 
 import vlib
 
 
-def extract(repo):
+class ExtractError(Exception):
+    pass
+
+
+def sanitize(msg):
+    return re.sub(r"\s+", " ", msg or "").replace("(*", "( *").replace("*)", "* )")
+
+
+def source_facts(repo):
+    """returns the JSON object of harness/cmd/extract-c15 (per fact: ok/value/why)"""
     with vlib.Lock("go"):
         p = subprocess.run(["go", "run", "./cmd/extract-c15", repo], cwd=vlib.HARNESS, env=vlib.GOENV,
                            stdout=subprocess.PIPE, stderr=subprocess.PIPE, text=True, timeout=280)
     if p.returncode != 0:
-        raise RuntimeError("extract-c15 failed on %s (rc=%d): %s" % (repo, p.returncode, p.stderr.strip()[-2000:]))
+        raise ExtractError("extract-c15 failed on %s (rc=%d): %s" % (repo, p.returncode, p.stderr.strip()[-1500:]))
     return json.loads(p.stdout)
 
 
-def render(res):
-    def esc(s):
-        return (s or "").replace("(*", "( *").replace("*)", "* )")
-    return """(* GENERATED by lib/extract_c15.py (harness/cmd/extract-c15, go/ast) from the
-   repository's wallet/chainntfns.go, wallet/wallet.go and waddrmgr/db.go.
+def _run_probe(repo):
+    """build harness/cmd/probe-c15 against `repo` and run it"""
+    with vlib.Lock("go"):
+        os.makedirs(os.path.join(vlib.WORK, "bin"), exist_ok=True)
+        modflag = []
+        if repo == "/repo":
+            shutil.copyfile(os.path.join(repo, "go.sum"), os.path.join(vlib.HARNESS, "go.sum"))
+        else:
+            alt = os.path.join(vlib.WORK, "probe_c15_%s.mod" % hashlib.sha1(repo.encode()).hexdigest()[:8])
+            txt = open(os.path.join(vlib.HARNESS, "go.mod")).read().replace("=> /repo", "=> " + repo)
+            open(alt, "w").write(txt)
+            shutil.copyfile(os.path.join(repo, "go.sum"), alt[:-4] + ".sum")
+            modflag = ["-modfile=" + alt]
+        exe = os.path.join(vlib.WORK, "bin", "probe-c15")
+        p = subprocess.run(["go", "build"] + modflag + ["-tags", "verif", "-o", exe, "./cmd/probe-c15"],
+                           cwd=vlib.HARNESS, env=vlib.GOENV, stdout=subprocess.PIPE, stderr=subprocess.PIPE,
+                           text=True, timeout=900)
+        if p.returncode != 0:
+            raise ExtractError("probe: harness/cmd/probe-c15 does not build against %s: %s" % (
+                repo, (p.stdout + p.stderr)[-1500:]))
+    p = subprocess.run([exe], cwd=vlib.WORK, stdout=subprocess.PIPE, stderr=subprocess.PIPE, text=True, timeout=300)
+    if p.returncode != 0:
+        raise ExtractError("probe: probe-c15 failed: %s" % p.stderr[-1500:])
+    return json.loads(p.stdout)
+
+
+def probe_hash_fact(resp):
+    inst = resp.get("instances") or []
+    if len(inst) < 6:
+        raise ExtractError("probe: only %d witness instances reported" % len(inst))
+    bad = [i for i in inst if i.get("err") or not i.get("accepted")]
+    if bad:
+        raise ExtractError("probe: the witness scenario did not reach SetSyncedTo in instance n=%d birthday=%s: %s" % (
+            bad[0]["n"], bad[0]["birthday"], bad[0].get("err") or "disconnect of the tip not accepted"))
+    if all(i["synced_is_parent"] and i["stored_is_parent"] for i in inst):
+        return True
+    if all(i["synced_is_zero"] and i["stored_is_zero"] for i in inst):
+        return False
+    raise ExtractError("probe: after connect 1..n, disconnect n the synced-to hash / the hash stored for n-1 is neither "
+                       "always the parent's nor always all-zero: %s" % json.dumps(inst)[:600])
+
+
+def probe_depth_fact(resp):
+    if not resp.get("prune_ok"):
+        raise ExtractError("probe: MaxReorgDepth = %s but the pruning rule h - MaxReorgDepth is not what PutSyncedTo does: %s" % (
+            resp.get("max_reorg_depth"), resp.get("prune_detail")))
+    return int(resp["max_reorg_depth"])
+
+
+def facts(repo):
+    """returns dict(hash, depth, why, source_line)"""
+    src_err = None
+    try:
+        s = source_facts(repo)
+    except (ExtractError, OSError, ValueError, subprocess.SubprocessError) as e:
+        s, src_err = {}, str(e)
+    rel = lambda m: (m or "").replace(repo.rstrip("/") + "/", "")      # noqa: E731
+    h, d = s.get("records_parent_hash") or {}, s.get("max_reorg_depth") or {}
+    need = []
+    if not h.get("ok"):
+        need.append(("disconnect_records_parent_hash", rel(h.get("why") or src_err or "no answer")))
+    if not d.get("ok"):
+        need.append(("max_reorg_depth", rel(d.get("why") or src_err or "no answer")))
+    out = dict(info=s)
+    if h.get("ok"):
+        out["hash"], out["why"] = bool(h["value"]), h.get("why", "")
+    if d.get("ok"):
+        out["depth"] = int(d["value"])
+    if not need:
+        out["source_line"] = "source (shape of disconnectBlock and of MaxReorgDepth / staleHeight recognised)"
+        return out
+    try:
+        resp = _run_probe(repo)
+        if "hash" not in out:
+            out["hash"] = probe_hash_fact(resp)
+            out["why"] = ("probe: connect 1..n, disconnect n (n = 1, 3, 5; with / without birthday block): synced-to hash and "
+                          "hash stored for n-1 are %s in all %d instances" % (
+                              "the parent's" if out["hash"] else "all-zero", len(resp["instances"])))
+        if "depth" not in out:
+            out["depth"] = probe_depth_fact(resp)
+    except (ExtractError, OSError, ValueError, KeyError, subprocess.SubprocessError) as e2:
+        raise ExtractError("source shape not recognised (%s) AND probing the built code failed (%s)" % (
+            "; ".join("%s: %s" % n for n in need), e2))
+    out["source_line"] = "probe (%s; determined by running the code built from the repository, harness/cmd/probe-c15)" % (
+        "; ".join("%s - source shape not recognised: %s" % (n, sanitize(w)[:300]) for n, w in need))
+    return out
+
+
+def render(f):
+    info = f.get("info") or {}
+    return """(* GENERATED by lib/extract_c15.py (harness/cmd/extract-c15, go/ast; fallback harness/cmd/probe-c15)
+   from the repository's wallet/chainntfns.go, wallet/wallet.go and waddrmgr/db.go.
    Do not edit; bin/extract rewrites it from the current source. *)
+(* facts source: %s *)
 From Coq Require Import ZArith Bool.
 Local Open Scope Z_scope.
 
@@ -46,10 +177,9 @@ Definition max_reorg_depth : Z := %d.
    known-block test of disconnectBlock : %s
    TxStore.Rollback in disconnectBlock  : %s
    TxStore.Rollback in syncWithChain    : %s *)
-""" % (esc(res["why"]), "true" if res["records_parent_hash"] else "false", res["max_reorg_depth"],
-       esc(res.get("known_block_test")), esc(res.get("rollback_arg")), esc(res.get("startup_rollback")))
+""" % (sanitize(f["source_line"]), sanitize(f["why"]), "true" if f["hash"] else "false", f["depth"],
+       sanitize(info.get("known_block_test")), sanitize(info.get("rollback_arg")), sanitize(info.get("startup_rollback")))
 
 
 def main(repo, outdir, write_if_changed):
-    res = extract(repo)
-    write_if_changed(os.path.join(outdir, "SyncFacts.v"), render(res))
+    write_if_changed(os.path.join(outdir, "SyncFacts.v"), render(facts(repo)))
